@@ -65,6 +65,23 @@ CHECKS.update({
                 "with the full state compared after every step (so aliasing shows up as a divergence of the source)."),
 })
 
+CHECKS["C15"] = dict(
+    engine="spec/uijson", category="model_checking",
+    technique="TLA+ spec UiJsonValidate.tla: declared layer (RequiresValue from the documented groupOptional > dependency > optional "
+              "hierarchy; Accepts from the constraints a form declares) vs operational layer shaped like the code (rule table, "
+              "validator chain, promotion, one_of bookkeeping, enforcer pool, Parameter.value, UIJson.validate) as a bounded state "
+              "machine over one validator/parameter/form object; TLC checks verdict = Accepts(current form, value) and "
+              "rejected-leaves-unchanged on every transition; every exported call and a path cover of the call-sequence graphs are "
+              "replayed on real InputFile / InputValidation / Parameter / FormParameter / EnforcerPool / UIJson objects",
+    text="Exhaustive within the bounds: all 180 canonical switch combinations x 11 form kinds x {None, good, bad} x 5 entry points, "
+         "all value kinds per form kind, all call sequences of the path cover up to depth 3 (quick) / 4-5 (thorough) on both APIs; "
+         "every exported call is replayed (no sampling). An answer is attributed to a recorded finding only if it equals exactly the "
+         "prediction of that named deviation of the spec.",
+    design_ref="DESIGN.md section 6 (C15); notes/C15.md",
+    note="Verdicts only (any exception = rejected). optional:false, list/multiSelect values, property-group uuids on plain data forms "
+         "and the new API's missing optional hierarchy are documented ambiguities outside the model. Trusted: TLC, harness/uijson_impl.py.",
+)
+
 NOT_YET = "check not built yet in this round (planned: see DESIGN.md section 7)"
 
 
